@@ -85,7 +85,7 @@ func itoa(i int) string {
 
 func (e *Exec) locksetAccess(p Ptr, write bool) {
 	lw := e.lockWatch
-	if lw.paused || e.atomicDepth > 0 {
+	if lw.paused {
 		return
 	}
 	mu, ok := lw.objs[p.Obj]
@@ -100,6 +100,14 @@ func (e *Exec) locksetAccess(p Ptr, write bool) {
 	}
 	lw.accesses++
 	st := e.locks[mu]
+	if e.atomicDepth > 0 {
+		// an atomic access is not a data race, but state read atomically OUTSIDE the critical section can be
+		// stale when the section runs: reported as a separate category (confirmed natively before it counts)
+		if st == 0 {
+			lw.bad = append(lw.bad, "atomic access of guarded field "+p.Obj.Site+pk+" outside the critical section")
+		}
+		return
+	}
 	if (write && st != -1) || (!write && st == 0) {
 		kind := "read"
 		if write {
